@@ -458,6 +458,22 @@ func (vc *VC) merge(states ...*State) *State {
 	if len(live) == 1 {
 		return live[0]
 	}
+	// ghost variables missing in a state hold their entry value there
+	for name, obj := range vc.eng.ghostVarObj {
+		any := false
+		for _, s := range live {
+			if _, ok := s.vars[obj]; ok {
+				any = true
+			}
+		}
+		if any {
+			for _, s := range live {
+				if _, ok := s.vars[obj]; !ok {
+					s.vars[obj] = vc.readGhostVar(nil, vc.eng.ghostVars[name])
+				}
+			}
+		}
+	}
 	out := live[0].clone()
 	var gs []string
 	for _, s := range live {
